@@ -43,7 +43,9 @@ def sources(qs, members):
     for(int t=0;t<n;t++){ T a[3],b[3]; for(int i=0;i<3;i++){ a[i]=(T)((double)(g()%2001)/1000.0-1.0); b[i]=(T)((double)(g()%2001)/1000.0-1.0); } if(t%5==0){ for(int i=0;i<3;i++) b[i]=a[i]+b[i]*(T)1e-3; }
       Direction<T> da(a[0],a[1],a[2]), db(b[0],b[1],b[2]); Direction<T> c = da.Cross(db); dr::Qd l2=(dr::Qd)c.x()*c.x()+(dr::Qd)c.y()*c.y()+(dr::Qd)c.z()*c.z();
       if(!std::isfinite((long double)c.x())){ nonfinite++; continue; } if(l2==0) continue; double u=(double)(fabsq(sqrtq(l2)-1)/(dr::Qd)dr::eps<T>()); if(u>worst) worst=u;
-      double o=(double)(fabsq((dr::Qd)c.x()*da.x()+(dr::Qd)c.y()*da.y()+(dr::Qd)c.z()*da.z())/(dr::Qd)dr::eps<T>()); if(t%5 && o>orth) orth=o; cnt++; }
+      // the cross product of two unit vectors at angle theta has length sin(theta): normalising it amplifies its rounding error by 1/sin(theta), so the orthogonality defect is judged times sin(theta)
+      dr::Qd cx=(dr::Qd)da.y()*db.z()-(dr::Qd)da.z()*db.y(), cy=(dr::Qd)da.z()*db.x()-(dr::Qd)da.x()*db.z(), cz=(dr::Qd)da.x()*db.y()-(dr::Qd)da.y()*db.x(); dr::Qd sn=sqrtq(cx*cx+cy*cy+cz*cz);
+      double o=(double)(sn*fabsq((dr::Qd)c.x()*da.x()+(dr::Qd)c.y()*da.y()+(dr::Qd)c.z()*da.z())/(dr::Qd)dr::eps<T>()); if(t%5 && o>orth) orth=o; cnt++; }
     printf("{\"e\":\"DirCross\",\"num\":\"%s\",\"n\":%ld,\"len_ulps\":%ld,\"orth_eps\":%ld,\"nonfinite\":%ld}\n", dr::NumName<T>::c, cnt, (long)std::ceil(worst), (long)std::ceil(orth), nonfinite); }''')
     # construction without an argument is exactly the zero vector; the Magnitude() / MagnitudeSquared() members of a direction report its length
     out.append(r'''  { Direction<T> d0; Direction<T> z0 = Direction<T>::Zero(); PlanarDirection<T> p0; PlanarDirection<T> q0 = PlanarDirection<T>::Zero();
